@@ -56,7 +56,8 @@ func (k Keeper) GetExchangedPrice(
 		if err != nil {
 			return nil, rawDenom, err
 		}
-		realPrice = price.Mul(rate)
+		// truncate like the discounts above: rounding could lift the exchanged price to the next unit
+		realPrice = price.MulTruncate(rate)
 	}
 
 	// set to 1 if price < 1
